@@ -13,6 +13,8 @@ INVARIANTS
   C03_TablesAreImage
   C04_TablesAreImage
   C05_NoDatapathResidue
+  C05_Up4PoolsRestored
+  C05_DeletionOfLiveSessionNotRefused
   C05_SessionRecordsForgotten
   C05_AddressesReturned
   C05_TeidsReturned
